@@ -123,7 +123,7 @@ func c14Body(e *Env) {
 			return false
 		}
 	}
-	if err := r.F.Close(); err != nil {
+	if err := r.E.CloseFile(r.F); err != nil {
 		e.Fail("C14", "close-error", "File.Close failed: %v", err)
 		return false
 	}
@@ -233,7 +233,7 @@ func c14Body(e *Env) {
 			if e.Failed() && c.Crash == nil {
 				c.Crash = ch
 			}
-			r2.F.Close()
+			r2.E.CloseFile(r2.F)
 		})
 		e.Res.Evals += n
 	}
@@ -281,7 +281,7 @@ func c14Body(e *Env) {
 		}
 	}
 	// --- a later plain open reports the new limit
-	if err := r.F.Close(); err != nil {
+	if err := r.E.CloseFile(r.F); err != nil {
 		e.Fail("C14", "close-error", "File.Close failed: %v", err)
 		return
 	}
